@@ -233,12 +233,14 @@ def pingpong_case(rng, cfg, name):
 
 
 # ------------------------------------------------------------------------------------ running
-def build(cfg, sanitize=False, cxx="g++", opt="-O1"):
+def build(cfg, sanitize=False, cxx="g++", opt="-O1", memcheck=False):
     flags = ["-std=c++11", opt, "-Wall", "-Wextra", "-ftemplate-depth=2000"]
+    if memcheck:
+        flags = [f for f in flags if f != opt] + ["-O0", "-g", "-DVERIF_MEMCHECK"]
     if sanitize:
         # -O0: g++'s UBSan instruments more at -O0 (e.g. reference binding to a misaligned packed member, F8)
         flags = [f for f in flags if f != opt] + ["-O0", "-g", "-fsanitize=address,undefined", "-fno-sanitize-recover=all"]
-    return C.build_harness("machine" + ("_san" if sanitize else ""), G.source(cfg), flags, cxx=cxx)
+    return C.build_harness("machine" + ("_san" if sanitize else "") + ("_mc" if memcheck else ""), G.source(cfg), flags, cxx=cxx)
 
 
 def split_cases(out):
